@@ -173,7 +173,7 @@ def hand_step(solver, nsteps):
     dts = []
     # count genuine refusals of the step solver (observation only: the call is passed through)
     refusals = {"n": 0, "per_step": []}
-    orig = type(solver).solve_for_psi_squared
+    orig = solver.solve_for_psi_squared  # instance attribute if an environment is installed, else the static method
 
     def counting(**kw):
         out = orig(**kw)
